@@ -59,6 +59,19 @@ pub fn impl_rs(c: &RsCase) -> Vec<String> {
             let log = shared.log.lock().unwrap().clone();
             outs.push(format!("{}\t{}\t{}", s, enc_events(&log), log.len()));
         }
+        // "the same result as evaluating that rule's expression on its own": without symbols and functions a rule's
+        // expression can be evaluated stand-alone (Expr::evaluate) — it must give what the ruleset gave
+        if c.env.syms.is_empty() && c.env.fns.is_empty() && c.rules.len() <= 64 && outs.len() == 1 && outs[0].starts_with("(outcomes") {
+            let alone: Vec<String> = c.rules.iter().map(|e| match catch_unwind(AssertUnwindSafe(|| block_on(e.evaluate(&c.facts)))) {
+                Ok(r) => enc_result(&r),
+                Err(p) => format!("PANIC {}", panic_msg(p).replace(['\t', '\n'], " ")),
+            }).collect();
+            let want = format!("(outcomes{})", alone.iter().map(|x| format!(" {}", x)).collect::<String>());
+            let got = field(&outs[0], 0).to_string();
+            if want != got {
+                outs[0] = format!("(stand-alone-evaluation-differs in-ruleset {} alone {}){}", got, want, &outs[0][got.len()..]);
+            }
+        }
         outs
     }));
     match r {
